@@ -239,7 +239,15 @@ static void run(Tape &t, Ctx &c, bool requireTls)
             opsSinceFailOver++;
         switch (op) {
         case 0: history += " header(1.0)"; srv.send(conn, QStringLiteral("<?xml version='1.0'?><stream:stream xmlns='jabber:client' xmlns:stream='http://etherx.jabber.org/streams' from='example.org' id='%1' version='1.0'>").arg(streamId)); break;
-        case 1: history += " header(no-version)"; reachedAuthCapable = true; srv.send(conn, QStringLiteral("<?xml version='1.0'?><stream:stream xmlns='jabber:client' xmlns:stream='http://etherx.jabber.org/streams' from='example.org' id='%1'>").arg(streamId)); break;
+        case 1: {
+            // a header without a version, or with one below 1.0 (a pre-RFC server: legacy authentication territory)
+            static const QStringList versions = { "", "", "0.9", "0.0", "0", "abc" };
+            const QString ver = t.pick(versions.toVector().toStdVector());
+            history += ver.isEmpty() ? " header(no-version)" : " header(version=" + q(ver) + ")";
+            reachedAuthCapable = true;
+            srv.send(conn, QStringLiteral("<?xml version='1.0'?><stream:stream xmlns='jabber:client' xmlns:stream='http://etherx.jabber.org/streams' from='example.org' id='%1'%2>").arg(streamId, ver.isEmpty() ? QString() : QStringLiteral(" version='%1'").arg(ver)));
+            break;
+        }
         case 2: history += " header(no-id)"; srv.send(conn, QStringLiteral("<stream:stream xmlns='jabber:client' xmlns:stream='http://etherx.jabber.org/streams' from='example.org' version='1.0'>")); break;
         case 3: {
             std::string d;
@@ -393,7 +401,7 @@ static void run(Tape &t, Ctx &c, bool requireTls)
     }
     if (reachedAuthCapable)
         c.nontrivial(vh::fnv(history + cdesc));
-    bool versionless = history.find("header(no-version)") != std::string::npos;
+    bool versionless = history.find("header(no-version)") != std::string::npos || history.find("header(version=") != std::string::npos;
     c.require(leak.empty(), "c04 plaintext-" + leak + (versionless ? " after-versionless-header" : ""), [&] {
         return "with TLS required the client sent " + leak + " over the unencrypted link\n config: " + cdesc + "\n script:" + history + "\n plaintext received by the peer: " + q(plain.left(2500));
     });
